@@ -25,12 +25,6 @@ package utils
 // q is the attributes object of one of the ancestors (incl. s itself) of s
 //@ define onChain(queues map[ci.QueueID]*rs.QueueAttributes, s ci.QueueID, q *rs.QueueAttributes) bool = 0 <= lvl(q) && lvl(q) < depth(s) && queues[anc(s, lvl(q))] == q
 
-// anyQueue(0): an ARBITRARY attributes object (unconstrained uninterpreted symbol). A postcondition
-// stated about anyQueue(0) therefore holds for every object (forall-introduction); used instead of
-// `forall q *rs.QueueAttributes ::` because the engine gives bound pointer variables no
-// sub-address facts for embedded structs (see report).
-//@ declare anyQueue(i int) *rs.QueueAttributes
-
 //@ func QuantifyResource
 //@   props C07 C08
 //@   requires resource != nil
